@@ -22,7 +22,11 @@ def c_to_rust(ty):
 
 
 def rule_M2(ctx, F):
-    t = r_c.tu("c/blake3.c")
+    if F.cfg_flavour() == "neon1":
+        import r_round
+        t = r_c.tu("c/blake3.c", (), extra_args=r_round.NEON)      # aarch64 preprocessing: BLAKE3_USE_NEON prototypes
+    else:
+        t = r_c.tu("c/blake3.c")
     n = 0
     for name, fi in sorted(F.foreign.items()):
         n += 1
@@ -35,7 +39,7 @@ def rule_M2(ctx, F):
         ctx.ob(fi["param_names"] == cnames, "ffi-param-names:%s" % name, fi["s"], "Rust (%s) ; C (%s)" % (", ".join(fi["param_names"]), ", ".join(cnames)))
         ctx.ob(fi["params"] == ctys, "ffi-param-types:%s" % name, fi["s"], "Rust (%s) ; C (%s)" % (", ".join(fi["params"]), ", ".join("%s=%s" % (p[1], c) for p, c in zip(proto["params"], ctys))))
         ctx.ob(fi["ret"] == "()" and proto["ret"].replace("INLINE", "").strip() in ("void",), "ffi-return:%s" % name, fi["s"], "Rust -> %s ; C %s" % (fi["ret"], proto["ret"]))
-    ctx.floor("extern kernel symbols", n, 11 if F.cfg_flavour() == "asm" else 4)
+    ctx.floor("extern kernel symbols", n, {"asm": 11, "neon1": 1}.get(F.cfg_flavour(), 4))
     # wrapper call sites: argument i derives from the wrapper parameter of the same meaning
     sites = 0
     for p, fn in F.fns.items():
@@ -91,7 +95,7 @@ def rule_M2(ctx, F):
                 need = P.bin("Mul", ("call", name_ends("::len"), (INP,)), P.named("OUT_LEN"))
                 ok = has_cmp_guard(gs, "Le", need, ("call", name_ends("::len"), (OUT,))) is not None or has_guard(gs, P.bin("Ge", ("call", name_ends("::len"), (OUT,)), need), True) is not None
                 ctx.ob(ok, "ffi-out-length-guard:%s" % sym, tcall.get("s"), "assert!(out.len() >= inputs.len() * OUT_LEN) dominates the FFI call: %s" % ok)
-    ctx.floor("FFI call sites", sites, 11 if F.cfg_flavour() == "asm" else 4)
+    ctx.floor("FFI call sites", sites, {"asm": 11, "neon1": 1}.get(F.cfg_flavour(), 4))
 
 
 def rule_M3(ctx, F):
